@@ -462,6 +462,9 @@ Definition allow_list : list loop_id :=
        token or raises at end of stream.  The classifier cannot use the path condition
        (token not in {",", ")"}) that makes the callee consuming.
        Proved about the model: `newick_reader_total` (Newick.v `children_loop`). *)
+    ("newickreader.py", "NewickReader._parse_tree_node_description", 1, "34b0cd6b1a42");
+    (* the same loop before the fix commit "NewickReader keeps a trailing blank leaf after a named
+       sibling" (one `if` condition inside the "," branch differs; the fetches are identical) *)
     ("newickreader.py", "NewickReader._parse_tree_node_description", 1, "5d3a1018fea0");
     (* nexusyielder.py:79  NexusTreeDataYielder._yield_items_from_stream (assume_newick_if_not_nexus)
          while True: tree = self._build_tree_from_newick_tree_string(..); if tree is None: break; yield
